@@ -512,6 +512,10 @@ def islice_end_bound(spec):
         # xs[start:stop] is empty for every xs: the empty prefix determines the (empty) result, and
         # behind an unbounded flow the end must still be found ("shortest prefix that determines")
         return 0
+    if start is not None and start < 0 and stop is not None and stop >= 0:
+        # xs[start:stop] is empty as soon as xs is known to have stop - start values: behind a long or
+        # unbounded flow the (empty) end is determined by that prefix; one value of look-ahead is granted
+        return stop - start + 1
     if stop is None or stop < 0 or (start is not None and start < 0):
         return None
     return max(start or 0, stop)
